@@ -440,3 +440,67 @@ def derivative_state_precision(ctx, run):
             if bad:
                 run.fail(Finding("C07.R7d", fi.qualname, f"{label}: {bad[0]}"[:300], "the state handed to the Black-Scholes modules is only float32-accurate for a float64 derivative",
                                  file=str(prog.modules[fi.module].path), line=fi.node.lineno, case=mode))
+
+
+def partial_arguments_rule(ctx, run):
+    """R5p: a module created from a derivative fills in the parameters the caller leaves out - and only those: for every method that takes the
+    state (price, delta, gamma, vega, theta) and every single parameter given explicitly, the closed form receives the caller's tensor for
+    that parameter (a merged guard `if a is None or b is None:` overwrites an explicit `a` whenever `b` is missing)."""
+    from .. import world as W
+    from ..interp import Obj, Unsupported
+    from ..term import Sym
+    prog, interp = ctx.prog, ctx.interp
+    MOD = "pfhedge.nn.modules.bs."
+    n = 0
+    for mq in ("european.BSEuropeanOption", "european_binary.BSEuropeanBinaryOption", "american_binary.BSAmericanBinaryOption", "lookback.BSLookbackOption"):
+        cq = MOD + mq
+        short = mq.rsplit(".", 1)[-1]
+        for meth in ("price", "delta", "gamma", "vega", "theta"):
+            mfi = prog.lookup_method(cq, meth)
+            if mfi is None or not mfi.qualname.startswith(cq):
+                continue  # inherited automatic Greek: the parameters go through price()
+            names = [a.arg for a in mfi.node.args.args[1:] if a.arg not in ("create_graph",)]
+            bad = []
+            for given in names:
+                probe = Obj(cq, "bs", {"derivative": W.option(), "strike": W.fl("bs.strike"), "call": Sym("bs.call", ("bool",))})
+                g = W.tensor("given_" + given)
+                kw = {k_: (g if k_ == given else None) for k_ in names}
+                try:
+                    res = [r for r in interp.explore(mfi, [], kw, self_obj=probe, max_paths=60) if not r["raises"]]
+                except Unsupported as ex:
+                    raise AnalysisError(f"{short}.{meth}({given}=...): {ex}")
+                if not res:
+                    raise AnalysisError(f"{short}.{meth}({given}=...): no analysable path")
+                for r in res:
+                    calls = [e for e in r["events"] if e["kind"] == "call" and e["callee"].startswith(B.F + "bs_") and (e.get("fn") or "").startswith(cq)]
+                    for e in calls[:1]:
+                        fparams = [a.arg for a in prog.functions[e["callee"]].node.args.args]
+                        got = dict(e["kwargs"])
+                        for k_, v_ in zip(fparams, e["args"]):
+                            got[k_] = v_
+                        v_ = got.get(given)
+                        while isinstance(v_, Op) and v_.op in ("requires_grad_", "clone", "contiguous", "to", "expand", "expand_as", "broadcast_to", "as_tensor") and v_.args:
+                            v_ = v_.args[0]  # value-preserving wrappers (the automatic Greeks mark their leaf)
+                        names_ = {x_.name for x_ in walk(v_) if isinstance(x_, Sym)} if isinstance(v_, (Op, Sym)) else set()
+                        reparam = g.name in names_ and not any(n_.startswith("deriv.") for n_ in names_)  # e.g. log(exp(given) K / K) of the automatic Greeks
+                        if given in fparams and v_ != g and not reparam:
+                            bad.append(f"{given} given explicitly, the closed form receives {str(got.get(given))[:50]}")
+                    if not calls:
+                        bad.append(f"{given}: no closed form is evaluated")
+            bad = sorted(set(bad))
+            n += 1
+            run.oblige("C07.R5p", f"{short}.{meth}: an explicitly given parameter is used as given", not bad, "; ".join(bad))
+            if bad:
+                run.fail(Finding("C07.R5p", mfi.qualname, f"{short}.{meth}: " + "; ".join(bad)[:260], "the module silently replaces a state the caller supplied by the derivative's own: a bumped price or maturity is ignored",
+                                 file=str(prog.modules[mfi.module].path), line=mfi.node.lineno))
+    run.require("C07.R5p", 10)
+    if n < 10:
+        raise AnalysisError(f"only {n} module methods analysed")
+
+
+_check_before_r5p = check
+
+
+def check(ctx, run):  # noqa: F811
+    _check_before_r5p(ctx, run)
+    partial_arguments_rule(ctx, run)
